@@ -72,7 +72,7 @@ SUITES.update({
                      describe="random operation sequences (TLC -simulate) replayed on one live collection, result and content compared after every call"),
 })
 
-TYPES_INVS = ["C08_NameRule", "C08_Judged", "C10_Rebuild", "C01_RoundTrip", "C15_Lookup", "C15_Names", "C18_Split",
+TYPES_INVS = ["C13_Finish", "EmitTypeStr", "C08_NameRule", "C08_Judged", "C10_Rebuild", "C01_RoundTrip", "C15_Lookup", "C15_Names", "C18_Split",
               "C18_Inverse", "EmitNames", "EmitLookup", "EmitCombined"]
 
 
@@ -84,7 +84,24 @@ def types_suite(mode, lq, lt, what):
 SUITES.update({
     "TYPES-NAMES": types_suite("names", 3, 5, "every name over {a A 1 - _ . AE Dz(titlecase)} up to length L x {pypi nuget cargo npm maven}: parsed raw, parsed fully escaped, built"),
     "TYPES-LOOKUP": types_suite("lookup", 0, 0, "all case variants of the seven names, one-edit neighbours over letters and look-alikes, padded / doubled names, 25 other PURL type names"),
+    "TYPES-STR": types_suite("typestr", 3, 4, "every type string over {g B T 1 . + - ! , e-acute} up to length L, built with String, Cow::Borrowed, Cow::Owned, SmallString"),
     "TYPES-COMB": types_suite("combined", 4, 6, "every combined name over {a b / :} up to length L x seven types"),
+})
+
+SUITES.update({
+    "CHECKSUM": dict(module="MC_Checksum", kind="bfs", spec="Spec", constraints=["Small"],
+                     invariants=["C12_OrderIndependent", "C12_TextRoundTrip", "C12_KeysLower", "C12_BytesRoundTrip", "C06_EmptyText", "EmitSpellings"],
+                     quick=dict(K=2), thorough=dict(K=3),
+                     describe="typed checksum map over 7 algorithm names x 6 hex texts: every op from every map with at most K entries; "
+                              "all enumerations of the map give one text; every order x case spelling of a well-formed map inside a PURL"),
+})
+
+SUITES.update({
+    "SHAPES": dict(module="MC_Shapes", kind="bfs", spec="Spec", invariants=["C14_Counts", "C14_AtEnd", "MachineIsParseF", "Emit"],
+                   trace="Trace_Shapes", trace_invariants=["C14_Counts_T"],
+                   quick=dict(E=2), thorough=dict(E=3),
+                   describe="user-supplied shapes: conversion ok/fails x hook ok/fails x every set of at most E hook edits (of 12) x 8 parse inputs and 3 builder inputs; "
+                            "expected outcome and call counts replayed, and the calls recorded by the shape validated as a trace of the step machine"),
 })
 
 # drivers: name -> dict(trace module, events per tier)
@@ -97,14 +114,17 @@ PROPS = {
     "C01": dict(suites=PARSE_ALL + ["FORMAT-1", "TYPES-NAMES"], drivers=[]),
     "C02": dict(suites=PARSE_ALL, drivers=[]),
     "C03": dict(suites=["FORMAT-1", "FORMAT-2", "PARSE-QUAL", "BUILDER-G"], drivers=[]),
-    "C04": dict(suites=PARSE_ALL + BUILD_ALL, drivers=[]),
+    "C04": dict(suites=PARSE_ALL + BUILD_ALL + ["SHAPES"], drivers=[]),
     "C05": dict(suites=PARSE_ALL, drivers=[]),
+    "C06": dict(suites=PARSE_ALL + ["QUAL", "QUAL-SIM", "CHECKSUM", "BUILDER-G", "BUILDER-T", "BUILDER-SIM-G", "FORMAT-1", "TYPES-LOOKUP", "TYPES-COMB", "SHAPES"], drivers=[]),
     "C07": dict(suites=["PARSE-NS", "PARSE-SUB", "PARSE-PATH", "PARSE-SEP"], drivers=[]),
     "C08": dict(suites=["TYPES-NAMES", "PARSE-TYPED", "BUILDER-T", "TYPES-COMB"], drivers=[]),
     "C09": dict(suites=BUILD_ALL + ["FORMAT-1", "FORMAT-2"], drivers=[]),
     "C10": dict(suites=PARSE_ALL + ["BUILDER-G", "BUILDER-T", "FORMAT-1"], drivers=[]),
     "C11": dict(suites=["QUAL", "QUAL-SIM"], drivers=[]),
-    "C13": dict(suites=["PARSE-SEP", "PARSE-PATH", "BUILDER-G", "BUILDER-SIM-G", "FORMAT-1"], drivers=[]),
+    "C12": dict(suites=["CHECKSUM", "BUILDER-G", "PARSE-QUAL"], drivers=[]),
+    "C13": dict(suites=["TYPES-STR", "PARSE-SEP", "PARSE-PATH", "BUILDER-G", "BUILDER-SIM-G", "FORMAT-1"], drivers=[]),
+    "C14": dict(suites=["SHAPES"], drivers=[]),
     "C15": dict(suites=["TYPES-LOOKUP", "PARSE-TYPED"], drivers=[]),
     "C18": dict(suites=["TYPES-COMB"], drivers=[]),
 }
